@@ -89,9 +89,17 @@ func runSolver(ctx context.Context, sd solverDef, file string, timeoutS int) Sol
 
 // Solve discharges one obligation by racing the solvers (all=true: run all to completion).
 func Solve(o *Obligation, outDir string, timeoutS int, all bool) *Verdict {
+	if o.KeepQuant {
+		// a refutation of a contradictory context is found quickly or not at all
+		if timeoutS > 10 {
+			timeoutS = 10
+		} else {
+			timeoutS = 3
+		}
+	}
 	extra := []string{"(assert " + o.Guard + ")", "(assert (not " + o.Formula + "))"}
 	script := o.sc.Render(o.Mark, extra, false)
-	if o.ExpectSat {
+	if o.ExpectSat && !o.KeepQuant {
 		// vacuity: drop engine-generated quantified facts (dropping assertions can only make the
 		// query more satisfiable, i.e. the vacuity check weaker, never unsound for the proofs)
 		var keep []string
@@ -184,6 +192,45 @@ func Solve(o *Obligation, outDir string, timeoutS int, all bool) *Verdict {
 		v.Status = "engine-error"
 	case sat != nil && unsat != nil:
 		v.Status = "engine-error"
+	case o.ExpectSat && o.KeepQuant:
+		// only a refutation counts: "unknown"/timeout is the normal answer for a satisfiable
+		// quantified context
+		if unsat != nil {
+			// refuted: either the path is dead by the program's own logic (then it is refuted without
+			// the quantified facts too, which is fine), or assumed facts contradict each other
+			v.Status, v.Solver, v.Ms = "failed", unsat.Solver, unsat.Ms
+			var keep []string
+			for _, l := range strings.Split(script, "\n") {
+				if strings.HasPrefix(l, "(assert ") && (strings.Contains(l, "(forall ") || strings.Contains(l, "(exists ")) {
+					continue
+				}
+				keep = append(keep, l)
+			}
+			qname := filepath.Join(outDir, sanitizeFile(o.Name)+".qf.smt2")
+			_ = os.WriteFile(qname, []byte(strings.Join(keep, "\n")), 0o644)
+			qctx, qcancel := context.WithCancel(context.Background())
+			qch := make(chan SolverRun, len(solvers))
+			for _, sd := range solvers {
+				go func(sd solverDef) { qch <- runSolver(qctx, sd, qname, 5) }(sd)
+			}
+			for range solvers {
+				r := <-qch
+				if r.Result == "unsat" && v.Status == "failed" {
+					r.Solver += " (dead path: refuted without quantified facts)"
+					v.Runs = append(v.Runs, r)
+					v.Status, v.Solver = "discharged", r.Solver
+					qcancel()
+				}
+			}
+			qcancel()
+		} else {
+			v.Status = "discharged"
+			if sat != nil {
+				v.Solver, v.Ms = sat.Solver, sat.Ms
+			} else {
+				v.Solver = "none refuted"
+			}
+		}
 	case o.ExpectSat:
 		switch {
 		case sat != nil:
